@@ -365,6 +365,7 @@ package schema
 //@   property C19
 //@   requires 0 <= capacity && capacity <= 1000000000
 //@   ensures wfRules(result) && fresh(result) && len(result.order) == 0
+//@   inline
 //@   ensures forall k string :: !(k in result.data)
 //@   no_panic
 
